@@ -27,7 +27,7 @@ pub fn run(cfg: &RunCfg) -> Ctx {
         all.floor("h2.calls", 50);
     }
     all.merge(par_cases(cfg, "accessors", cfg.n(25_000, 16 * 400_000), || (), |_, rng, ctx, _| accessor_case(rng, ctx)));
-    for k in ["acc.bin_len_mod3.0", "acc.bin_len_mod3.1", "acc.bin_len_mod3.2", "acc.padded_peer_value", "acc.invalid_base64_value", "acc.repeated_key"] {
+    for k in ["acc.bin_len_mod3.0", "acc.bin_len_mod3.1", "acc.bin_len_mod3.2", "acc.padded_peer_value", "acc.invalid_base64_value", "acc.repeated_key", "acc.mixed_case_key", "acc.binary_value_constructors", "acc.status_from_error_chain"] {
         all.floor(k, 10);
     }
     #[cfg(feature = "full")]
@@ -386,6 +386,96 @@ fn accessor_case(rng: &mut Rng, ctx: &mut Ctx) {
         }
     }
     let _ = AsciiMetadataKey::from_static("x");
+    // ---- key classification is by the (case-insensitive) header name, however the caller spells it
+    {
+        let bin = rng.bool();
+        let base = gen_key(rng, bin);
+        let spelled: String = base.chars().map(|c| if c.is_ascii_lowercase() && rng.chance(1, 3) { c.to_ascii_uppercase() } else { c }).collect();
+        let is_bin = base.ends_with("-bin");
+        let a = AsciiMetadataKey::from_bytes(spelled.as_bytes());
+        let b = tonic::metadata::BinaryMetadataKey::from_bytes(spelled.as_bytes());
+        if spelled != base {
+            ctx.count("acc.mixed_case_key");
+        }
+        match (&a, is_bin) {
+            (Ok(k), true) => ctx.violation("ascii-key-with-bin-suffix", format!("AsciiMetadataKey::from_bytes({:?}) succeeded and names {:?}", spelled, k.as_str())),
+            (Err(_), false) => ctx.violation("ascii-key-refused", format!("AsciiMetadataKey::from_bytes({:?}) failed", spelled)),
+            (Ok(k), false) if k.as_str() != base => ctx.violation("key-name-differs", format!("{:?} became {:?}", spelled, k.as_str())),
+            _ => {}
+        }
+        match (&b, is_bin) {
+            (Ok(k), true) if k.as_str() != base => ctx.violation("key-name-differs", format!("{:?} became {:?}", spelled, k.as_str())),
+            (Err(_), true) => ctx.violation("binary-key-refused", format!("BinaryMetadataKey::from_bytes({:?}) failed", spelled)),
+            (Ok(k), false) => ctx.violation("binary-key-without-bin-suffix", format!("BinaryMetadataKey::from_bytes({:?}) succeeded and names {:?}", spelled, k.as_str())),
+            _ => {}
+        }
+    }
+    // ---- every way of building a binary value encodes the same bytes
+    {
+        let payload: Vec<u8> = if rng.chance(1, 2) {
+            // opaque bytes that happen to look like base64 text
+            let n = rng.urange(0, 24);
+            (0..n).map(|_| *rng.pick(b"ABCDEFGHIJKLMNOPQRSTUVWXYZabcdefghijklmnopqrstuvwxyz0123456789+/")).collect()
+        } else {
+            gen_bin_value(rng)
+        };
+        let reference = BinaryMetadataValue::from_bytes(&payload);
+        let variants: Vec<(&str, Option<BinaryMetadataValue>)> = vec![
+            ("try_from(Bytes)", BinaryMetadataValue::try_from(bytes::Bytes::from(payload.clone())).ok()),
+            ("try_from(&[u8])", BinaryMetadataValue::try_from(&payload[..]).ok()),
+            ("try_from(Vec<u8>)", BinaryMetadataValue::try_from(payload.clone()).ok()),
+        ];
+        ctx.count("acc.binary_value_constructors");
+        for (name, v) in variants {
+            match v {
+                None => ctx.violation("binary-constructor-failed", format!("{} refused {} opaque bytes", name, payload.len())),
+                Some(v) => {
+                    let back = v.to_bytes().map(|b| b.to_vec());
+                    if back.as_ref().ok() != Some(&payload) || b64_decode(v.as_encoded_bytes()).as_deref() != Some(&payload[..]) || v != reference {
+                        ctx.violation("binary-constructor-differs", format!("{} of {:?} carries {:?} on the wire, which decodes to {:?}", name, String::from_utf8_lossy(&payload), String::from_utf8_lossy(v.as_encoded_bytes()), back.ok().map(|b| String::from_utf8_lossy(&b).to_string())));
+                    }
+                }
+            }
+        }
+    }
+    // ---- an error status found in another error's source chain keeps its metadata
+    {
+        let st = gen_status(rng);
+        let mut want = st.clone();
+        want.meta = strip_reserved(&want.meta);
+        #[derive(Debug)]
+        struct Wrapper(Box<dyn std::error::Error + Send + Sync>);
+        impl std::fmt::Display for Wrapper {
+            fn fmt(&self, f: &mut std::fmt::Formatter<'_>) -> std::fmt::Result {
+                write!(f, "middleware error")
+            }
+        }
+        impl std::error::Error for Wrapper {
+            fn source(&self) -> Option<&(dyn std::error::Error + 'static)> {
+                Some(&*self.0)
+            }
+        }
+        let depth = rng.urange(0, 2);
+        let mut e: Box<dyn std::error::Error + Send + Sync> = Box::new(st.build());
+        for _ in 0..depth {
+            e = Box::new(Wrapper(e));
+        }
+        let got = tonic::Status::from_error(e);
+        let v = view_status(&got);
+        ctx.count("acc.status_from_error_chain");
+        if v.code != st.code || v.message != st.message || v.details != st.details {
+            ctx.violation("status-chain-differs", format!("a status at depth {} of a source chain came back as code {} {:?}", depth, v.code, v.message));
+        }
+        match &v.meta {
+            Err(e) => ctx.violation("status-chain-metadata", e.clone()),
+            Ok(mm) => {
+                if let Err(e) = multimap_includes(mm, &spec_multimap(&st.meta)) {
+                    ctx.violation("status-chain-metadata", format!("a status found at depth {} of an error's source chain lost metadata: {}", depth, e));
+                }
+            }
+        }
+        let _ = want;
+    }
     ctx.fingerprint(format!("acc|n{}|bin{}|res{}|rep{}", entries.len().min(5), entries.iter().filter(|e| e.2).count().min(3), entries.iter().any(|e| RESERVED.contains(&e.0.as_str())) as u8, (keys.len() < entries.len()) as u8), !entries.is_empty());
     ctx.sample(case_json);
 }
@@ -425,7 +515,7 @@ fn h2_case(rng: &mut Rng, ctx: &mut Ctx, idx: u64) {
     }
     let sc = Scenario {
         conns: 1, lazy: vec![true], conn_start_ms: vec![0], calls, specs, signal: Signal::Never, keep_clients: false,
-        pipe_cfg: if rng.bool() { PipeCfg::plain() } else { PipeCfg::gen(rng) }, server_window: None, client_window: None, max_frame: None, seed: rng.u64(), server_timeout: None, endpoint_timeout: None,
+        pipe_cfg: if rng.bool() { PipeCfg::plain() } else { PipeCfg::gen(rng) }, server_window: None, client_window: None, max_frame: None, seed: rng.u64(), server_timeout: None, endpoint_timeout: None, max_connection_age: None,
     };
     let case_json = json!({"calls": sc.calls.iter().zip(&metas).map(|(c, m)| json!({"shape": format!("{:?}", c.shape), "request_meta": meta_json(&m.0), "initial_md": meta_json(&m.1), "status_meta": meta_json(&m.2), "fails": c.script.end.is_some()})).collect::<Vec<_>>()});
     ctx.begin("h2", case_json.clone());
